@@ -21,18 +21,18 @@ READY = True
 LEVEL = "exploration"
 TECHNIQUE = ("runtime monitoring: post-condition on net.sgen after every DERController control step (fabricated P/V operating "
              "points and real run_control loops) against saturate_sn_mva and an independent evaluation of the PQV area")
-CASES = {"quick": 480, "thorough": 15000}
+CASES = {"quick": 600, "thorough": 15000}
 BUDGET = {"quick": 60, "thorough": 1200}
-POINTS = {"quick": 12, "thorough": 20}
-FLOORS = {"quick": {"nontrivial": 200,
-                    "tags": {"saturation_active": 150, "area_only": 120, "area_and_saturation": 60, "q_prio": 70, "p_prio": 70,
-                             "area:polygon": 30, "area:statcom": 20, "area:4120": 30, "area:4110": 20, "area:4105": 20,
-                             "area:4130": 15, "run_control": 100},
-                    "extras": {"steps": 8000, "elements_checked": 20000, "saturation_binding": 2500, "area_binding": 2500,
-                               "polygon_crosschecks": 3000, "run_control_steps": 200},
+POINTS = {"quick": 20, "thorough": 30}
+FLOORS = {"quick": {"nontrivial": 280,
+                    "tags": {"saturation_active": 170, "area_only": 110, "area_and_saturation": 120, "saturation_only": 50,
+                             "q_prio": 140, "p_prio": 140, "area:polygon": 80, "area:statcom": 25, "area:4120": 50, "area:4110": 25,
+                             "area:4105": 25, "area:4130": 18, "run_control": 280},
+                    "extras": {"steps": 5500, "elements_checked": 15000, "saturation_binding": 3800, "area_binding": 3800,
+                               "polygon_crosschecks": 2700, "run_control_steps": 450},
                     "max_skip_frac": 0.2},
-          "thorough": {"nontrivial": 6000, "tags": {"saturation_active": 5000, "area_only": 4000},
-                       "extras": {"steps": 400000, "elements_checked": 1000000}, "max_skip_frac": 0.2}}
+          "thorough": {"nontrivial": 7000, "tags": {"saturation_active": 4000, "area_only": 2700, "area:4130": 450},
+                       "extras": {"steps": 200000, "elements_checked": 500000, "polygon_crosschecks": 90000}, "max_skip_frac": 0.2}}
 RULE = ("one case = one DERController (random Q model, PQV area or none, saturate_sn_mva or none, q priority, 1-4 sgens with "
         "random sn_mva) x fabricated operating points (p series in [0, 1.3 sn], vm in [0.85, 1.15], the exact sequence "
         "is_converged -> control_step of the control loop) + one real runpp(run_control=True); non-trivial = a capability "
@@ -81,6 +81,25 @@ def own_flex(area, p, vm):
             return None
         lo, hi = max(a[0], b[0]), min(a[1], b[1])
         return (lo, hi) if lo <= hi else None
+    return None
+
+
+def classify_cut(area, p_pu, vm, exc):
+    """PQAreaPOLYGON / QVAreaPOLYGON.q_flexibility read `.coords` of LineString.intersection(polygon) (PQVAreas.py:107-119,
+    144-152); when the vertical cutting line runs along a vertical polygon edge (e.g. p = 0.05 of PQArea4110) the intersection is
+    a multi-part geometry and shapely raises NotImplementedError"""
+    if not (isinstance(exc, NotImplementedError) and "multi-part" in str(exc)):
+        return None
+
+    def on_vertical_edge(xs, x0):
+        xs = list(xs)
+        return sum(xs[k] == xs[(k + 1) % len(xs)] == x0 for k in range(len(xs))) >= 2   # two collinear pieces
+    pq = area if isinstance(area, DM.PQAreaPOLYGON) else getattr(area, "pq_area", None)
+    qv = area if isinstance(area, DM.QVAreaPOLYGON) else getattr(area, "qv_area", None)
+    if isinstance(pq, DM.PQAreaPOLYGON) and any(on_vertical_edge(pq.p_points_pu, x) for x in p_pu):
+        return "polygon_area_cut_along_vertical_edge"
+    if isinstance(qv, DM.QVAreaPOLYGON) and any(on_vertical_edge(qv.vm_points_pu, x) for x in vm):
+        return "polygon_area_cut_along_vertical_edge"
     return None
 
 
@@ -187,21 +206,31 @@ def check_step(ctrl, area, sat, vm, pqs, info, extra, source):
                     s, s_lim, p, q, source), config=info, vm_pu=float(vm[k]), p_mw=p, q_mvar=q, sn_mva=sn))
         elif area is not None:
             ppu, qpu = p / sn, q / sn
-            try:
-                lo, hi = area.q_flexibility(pd.Series([ppu]), pd.Series([float(vm[k])]))[0][:2]
-            except (ValueError, AssertionError):
+            # the areas are piecewise with jumps at their break points and p/sn is recomputed here from the written MW value:
+            # accept the flexibility of any point of a 1e-9 neighbourhood of (p/sn, vm)
+            rng_ = []
+            for pe in (ppu, ppu * (1 - 1e-9), ppu * (1 + 1e-9)):
+                for ve in (float(vm[k]), float(vm[k]) * (1 - 1e-9), float(vm[k]) * (1 + 1e-9)):
+                    try:
+                        rng_.append(tuple(area.q_flexibility(pd.Series([pe]), pd.Series([ve]))[0][:2]))
+                    except (ValueError, AssertionError, NotImplementedError):
+                        pass
+            if not rng_:
                 continue
+            lo, hi = rng_[0]
             tol = 1e-9 * max(1., abs(lo), abs(hi))
-            if qpu <= lo + tol or qpu >= hi - tol:
+            if any(qpu <= a + tol or qpu >= b - tol for a, b in rng_):
                 extra["area_binding"] += 1
-            if not (lo - tol <= qpu <= hi + tol):
+            if not any(a - tol <= qpu <= b + tol for a, b in rng_):
                 viols.append(common.viol("q/sn = %.9g is outside the reactive flexibility [%.9g, %.9g] of %s at p/sn = %.9g, vm = %.6g "
                                          "(%s)" % (qpu, lo, hi, info["area"], ppu, vm[k], source), config=info, vm_pu=float(vm[k]),
                                          p_pu=ppu, q_pu=qpu))
             own = own_flex(area, ppu, float(vm[k]))
             if own is not None:
                 extra["polygon_crosschecks"] += 1
-                if not (own[0] - 1e-7 <= qpu <= own[1] + 1e-7):
+                owns = [own] + [o_ for o_ in (own_flex(area, ppu * f, float(vm[k]) * h) for f in (1 - 1e-9, 1 + 1e-9)
+                                              for h in (1 - 1e-9, 1 + 1e-9)) if o_ is not None]
+                if not any(a - 1e-7 <= qpu <= b + 1e-7 for a, b in owns):
                     viols.append(common.viol("q/sn = %.9g is outside the polygon cut [%.9g, %.9g] of %s at p/sn = %.9g, vm = %.6g "
                                              "(area function says [%.9g, %.9g], %s)" % (qpu, own[0], own[1], info["area"], ppu, vm[k],
                                                                                           lo, hi, source), config=info))
@@ -218,7 +247,7 @@ def run_case(seed, tier, case_no):
         return common.case(common.sha({"seed": seed}), nontrivial=False, tags={"area_constructor_raised"},
                            skipped="area_constructor:" + type(e).__name__, sample={"error": repr(e)[:200]})
     qm, qkind, qinfo = rnd_qmodel(g)
-    sat_mode = g.C(["none", "scalar", "vector", "scalar"]) if area is not None else g.C(["scalar", "vector"])
+    sat_mode = g.C(["none", "none", "vector", "scalar"]) if area is not None else g.C(["scalar", "vector"])
     sn = net.sgen.sn_mva.values
     if sat_mode == "none":
         sat_arg, sat = np.nan, None
@@ -264,7 +293,8 @@ def run_case(seed, tier, case_no):
             viols.append(common.viol("control step raised %r" % (e,), config=info, vm_pu=list(map(float, vm)), p_series_mw=list(map(float, pser))))
             continue
         except Exception as e:  # noqa
-            viols.append(common.viol("control step raised %r" % (e,), config=info, vm_pu=list(map(float, vm)), p_series_mw=list(map(float, pser))))
+            viols.append(common.viol("control step raised %r" % (e,), mechanism=classify_cut(area, pser / sn, vm, e), config=info,
+                                     vm_pu=list(map(float, vm)), p_series_mw=list(map(float, pser))))
             continue
         extra["steps"] += 1
         for vmo, pqs in Probed.trace:
